@@ -7,8 +7,11 @@ import (
 	"io"
 	"net"
 	"net/http"
+	"os"
 	"sort"
+	"strings"
 	"sync"
+	"sync/atomic"
 	"time"
 
 	"github.com/facebookgo/inject"
@@ -46,6 +49,12 @@ import (
 // inconclusive for that span (class inconclusive-timing), never a violation.
 
 const c17APIKey = "c9945edf5d245834089a1bd6cc9ad01e"
+
+// c17CaseSeq makes span ids and the version string unique per process and case:
+// several shards run in parallel and pick loopback ports independently, so a
+// node of another process may end up behind a port we probed as free. Spans
+// and nodes are therefore tagged, and only our own are judged.
+var c17CaseSeq atomic.Int64
 
 type c17SpanRef struct {
 	Trace int  `json:"tr"`
@@ -179,7 +188,7 @@ func c17FreePorts(n int) ([]int, error) {
 	return ports, nil
 }
 
-func c17StartNode(i int, n *c17Node, peersCfg []string, workers int, rec *c17Rec) error {
+func c17StartNode(i int, n *c17Node, peersCfg []string, workers int, rec *c17Rec, version string) error {
 	cfg := &config.MockConfig{
 		GetTracesConfigVal: config.TracesConfig{
 			SendTicker:   config.Duration(2 * time.Millisecond),
@@ -218,7 +227,7 @@ func c17StartNode(i int, n *c17Node, peersCfg []string, workers int, rec *c17Rec
 	inner := transmit.NewDirectTransmission(types.TransmitTypePeer, n.peerTransport, 500, 5*time.Millisecond, 30*time.Second, false, nil)
 	tap := &c17PeerTap{node: i, rec: rec}
 	up := &c17Upstream{node: i, rec: rec}
-	a := &app.App{}
+	a := &app.App{Version: version}
 	var g inject.Graph
 	err := g.Provide(
 		&inject.Object{Value: cfg},
@@ -233,7 +242,7 @@ func c17StartNode(i int, n *c17Node, peersCfg []string, workers int, rec *c17Rec
 		&inject.Object{Value: &collect.InMemCollector{BlockOnAddSpan: true}},
 		&inject.Object{Value: &pubsub.LocalPubSub{}},
 		&inject.Object{Value: n.metrics, Name: "metrics"},
-		&inject.Object{Value: "c17", Name: "version"},
+		&inject.Object{Value: version, Name: "version"},
 		&inject.Object{Value: &sample.SamplerFactory{}},
 		&inject.Object{Value: &health.Health{}},
 		&inject.Object{Value: clockwork.NewRealClock()},
@@ -250,12 +259,15 @@ func c17StartNode(i int, n *c17Node, peersCfg []string, workers int, rec *c17Rec
 	return startstop.Start(n.objects, nil)
 }
 
-func c17WaitListen(port int) bool {
+// c17WaitListen waits until OUR router answers on the port (the /version
+// endpoint echoes the per-case version string).
+func c17WaitListen(client *http.Client, port int, version string) bool {
 	for i := 0; i < 400; i++ {
-		conn, err := net.DialTimeout("tcp", fmt.Sprintf("127.0.0.1:%d", port), 100*time.Millisecond)
+		resp, err := client.Get(fmt.Sprintf("http://127.0.0.1:%d/version", port))
 		if err == nil {
-			conn.Close()
-			return true
+			b, _ := io.ReadAll(resp.Body)
+			resp.Body.Close()
+			return strings.Contains(string(b), version)
 		}
 		time.Sleep(5 * time.Millisecond)
 	}
@@ -282,6 +294,8 @@ func execC17Cluster(c *c17Cluster, res *vkit.Result) {
 		}
 		seen[t] = true
 	}
+	tag := fmt.Sprintf("c17-%d-%d", os.Getpid(), c17CaseSeq.Add(1))
+	version := tag
 	ports, err := c17FreePorts(2 * c.Nodes)
 	if err != nil {
 		res.Class("inconclusive-no-ports")
@@ -310,15 +324,19 @@ func execC17Cluster(c *c17Cluster, res *vkit.Result) {
 			}
 			list = append(list, addrs[j])
 		}
-		if err := c17StartNode(i, n, list, c.Workers, rec); err != nil {
+		if err := c17StartNode(i, n, list, c.Workers, rec, version); err != nil {
 			// e.g. the port was taken between probing and listening
 			res.Class("inconclusive-node-start-failed")
 			return
 		}
 		started++
 	}
+	tr := &http.Transport{}
+	client := &http.Client{Transport: tr, Timeout: 10 * time.Second}
+	defer tr.CloseIdleConnections()
 	for _, n := range nodes {
-		if !c17WaitListen(n.listen) || !c17WaitListen(n.peerPort) {
+		if !c17WaitListen(client, n.listen, version) || !c17WaitListen(client, n.peerPort, version) {
+			// not listening, or somebody else's process owns the port
 			res.Class("inconclusive-listen")
 			return
 		}
@@ -353,9 +371,6 @@ func execC17Cluster(c *c17Cluster, res *vkit.Result) {
 		entry int
 	}
 	var all []sent
-	tr := &http.Transport{}
-	client := &http.Client{Transport: tr, Timeout: 10 * time.Second}
-	defer tr.CloseIdleConnections()
 	rejected := 0
 	for pi, p := range c.Posts {
 		if p.Entry < 0 || p.Entry >= c.Nodes || len(p.Spans) == 0 {
@@ -367,7 +382,7 @@ func execC17Cluster(c *c17Cluster, res *vkit.Result) {
 			if s.Trace < 0 || s.Trace >= len(c.Traces) {
 				continue
 			}
-			id := fmt.Sprintf("p%d-s%d", pi, si)
+			id := fmt.Sprintf("%s-p%d-s%d", tag, pi, si)
 			data := map[string]any{"trace.trace_id": c.Traces[s.Trace], "trace.span_id": id, "c17.span": id, "name": "op"}
 			if !s.Root {
 				data["trace.parent_id"] = "parent"
